@@ -481,3 +481,30 @@ func Describe(v interface{}, depth int) string {
 	}
 	return fmt.Sprintf("%v", v)
 }
+
+// Canonical re-encodes a document with every nested document re-serialised in canonical key order
+// (for comparing encodings up to map order).
+func Canonical(data []byte) ([]byte, error) {
+	root, err := Decode(data)
+	if err != nil {
+		return nil, err
+	}
+	var mark func(v interface{})
+	mark = func(v interface{}) {
+		switch x := v.(type) {
+		case map[interface{}]interface{}:
+			for _, e := range x {
+				mark(e)
+			}
+		case []interface{}:
+			for _, e := range x {
+				mark(e)
+			}
+		case *Wrapped:
+			x.Dirty = true
+			mark(x.Doc)
+		}
+	}
+	mark(root)
+	return Encode(root)
+}
